@@ -588,6 +588,8 @@ def decorate(case, rng):
         case['measmap'] = rng.choice([{'m': 'mm'}, {'m': None}, {'n': 'm2', 'm': 'm1'}])
     if rng.random() < 0.25:
         case['mc'] = [rng.choice(MC_CONFIGS), rng.choice(MC_CONFIGS)]
+    if rng.random() < 0.08:
+        case['parch'] = True
     if rng.random() < 0.25 and 'single' not in kinds_of(tpl, set()):
         cnt, other = set(), set()
         uses(tpl, cnt, other)
@@ -1057,7 +1059,9 @@ def gen_alias_cases(tier):
                     if alias:
                         case['alias'] = True
                     if k % 3 == 0:
-                        case['mc'] = [[2, 1], ['total', 1]]
+                        case['mc'] = [[2, 1], ['total', 1], [2, 1, 'cleanup']]
+                    if k % 7 == 0:
+                        case['parch'] = True
                     cases.append(case)
     return cases
 
@@ -1259,6 +1263,10 @@ def build_case(case):
                        allow_partial_parameter_mapping=True)
         names = pt.measurement_names
         kw['measurement_mapping'] = {n: (None if (case.get('measmap') or {}).get(n, 1) is None else n + '_x') for n in names}
+    if case.get('parch'):
+        # ParallelChannelPT around the root: one more (constant) channel on every waveform, the duration is the inner one
+        from qupulse.pulses.multi_channel_pulse_template import ParallelChannelPulseTemplate
+        pt = ParallelChannelPulseTemplate(pt, {'p99': 0.5})
     if case.get('cpmap'):
         kw['channel_mapping'] = dict(case['cpmap'])
     if singles:
@@ -1651,7 +1659,7 @@ def histogram_keys(case, obs):
                 'range:step%s' % ('+' if case['s'] > 0 else '-')]
     keys = ['tpl', 'style:' + case['style'], 'depth:%d' % depth_of(case['tpl'])]
     keys += ['family:' + case['family']] if case.get('family') else []
-    keys += ['extra:' + x for x in ('rootmap', 'cpmap', 'volatile', 'mc', 'alias') if case.get(x)]
+    keys += ['extra:' + x for x in ('rootmap', 'cpmap', 'volatile', 'mc', 'alias', 'parch') if case.get(x)]
     if '"meas"' in __import__('json').dumps(case['tpl']):
         keys.append('extra:measurements')
     keys += sorted({'ptype:' + p['ty'] for p in case['params'].values()})
@@ -1714,15 +1722,6 @@ def classify(case, obs):
     an input the implementation nevertheless accepted with contradicting numbers."""
     if case.get('kind') != 'tpl' or 'prog' not in obs:
         return None
-    if isinstance(py_spec_num(case, obs), str) and py_spec_mc(case, obs) is None and for_with_parameter_bound(case['tpl']):
-        # the numerically evaluated duration expression differs from its exact value, a for-loop with a bound that
-        # is not a literal takes part: step count computed with float coefficients
-        sp = c04_spec.spec(case)
-        pr = obs['prog']
-        prog_ok = pr is None or 'err' in pr or sp[0] != 'ok' or (F(pr['loop']) == sp[1] and F(pr['pieces']) == sp[1])
-        sym_ok = sp[0] != 'ok' or obs.get('sym') is None or F(obs['sym']) == sp[1]
-        if prog_ok and sym_ok:
-            return 'C04-forloop-stepcount-float'
     pr = obs['prog']
     if pr is not None and 'err' in pr:
         return None
@@ -1827,7 +1826,7 @@ def shrink(case, obs, ctx=None):
     while improved and budget > 0:
         improved = False
         variants = [{**case, 'tpl': t} for t in _candidates(case['tpl'])]
-        variants += [{k: v for k, v in case.items() if k != x} for x in ('rootmap', 'cpmap', 'measmap', 'volatile', 'alias', 'mc') if x in case]
+        variants += [{k: v for k, v in case.items() if k != x} for x in ('rootmap', 'cpmap', 'measmap', 'volatile', 'alias', 'mc', 'parch') if x in case]
         for cand in variants:
             budget -= 1
             if budget <= 0:
